@@ -58,6 +58,22 @@ pub fn cases(tier: &str) -> Vec<Case> {
                 v.push(Case { white, go: format!("go wtime {} btime {} winc 0 binc 0 movetime {}", c, c, mt), limit: mt, expect_timer: true, clock_case: None });
             }
         }
+        // partial and permuted parameter lists: every UCI time parameter is optional ("a GUI can send" the clocks without
+        // increments when the game has none, or with `movestogo`); whenever the mover's clock is given it bounds the budget
+        let g2: [u64; 6] = [0, 1, 150, 7_500, 60_000, u64::MAX];
+        let (me, opp, myinc, oppinc) = if white { ("wtime", "btime", "winc", "binc") } else { ("btime", "wtime", "binc", "winc") };
+        for &x in &g2 {
+            v.push(Case { white, go: format!("go {} {}", me, x), limit: x, expect_timer: true, clock_case: None });
+            v.push(Case { white, go: format!("go {} {} movestogo 40", me, x), limit: x, expect_timer: true, clock_case: None });
+            for &y in &g2 {
+                v.push(Case { white, go: format!("go wtime {} btime {}", if white { x } else { y }, if white { y } else { x }), limit: x, expect_timer: true, clock_case: None });
+                v.push(Case { white, go: format!("go {} {} {} {}", me, x, myinc, y), limit: x, expect_timer: true, clock_case: None });
+                v.push(Case { white, go: format!("go {} {} {} {} {} {}", me, x, opp, x, myinc, y), limit: x, expect_timer: true, clock_case: None });
+                v.push(Case { white, go: format!("go {} {} {} {} {} {}", me, x, opp, x, oppinc, y), limit: x, expect_timer: true, clock_case: None });
+                v.push(Case { white, go: format!("go {} {} {} {} {} {} {} {}", oppinc, y, myinc, y, opp, y, me, x), limit: x, expect_timer: true, clock_case: None });
+                v.push(Case { white, go: format!("go wtime {} btime {} winc {} binc {} movestogo 1", x, x, y, y), limit: x, expect_timer: true, clock_case: None });
+            }
+        }
         for &c in &g {
             v.push(Case { white, go: format!("go wtime {} btime {} winc 0 binc 0 depth 1", c, c), limit: c, expect_timer: true, clock_case: Some((c, c, 0, 0)) });
             v.push(Case { white, go: format!("go wtime {} btime {} winc 0 binc 0 infinite", c, c), limit: c, expect_timer: false, clock_case: None });
